@@ -1,5 +1,6 @@
 import LettreVerif.Model.MailboxEnc
 import LettreVerif.Proofs.HeaderEnc
+import LettreVerif.Spec.HeaderReader
 /-!
 # Proofs about the mailbox header writer (Model/MailboxEnc.lean): the writer invariant of Proofs/HeaderEnc.lean is kept
 by `quoted_string::encode` (all four strategies), `write_unbreakable`, `Mailbox::encode` and `Mailboxes::encode`
@@ -151,5 +152,157 @@ theorem mailboxHeader_wf (nameLen : Nat) (ms : List (Option Bytes × Bytes))
   unfold headerValue
   apply flush_norm
   exact inv_mailboxesEncode ms true (Or.inl rfl) hm
+
+/-! ## line lengths: a list of bare addresses -/
+open LV.HeaderReader
+
+theorem printable_ok (b : Byte) (h : printable b = true) :
+    (b.toNat == 9 || (32 ≤ b.toNat && b.toNat ≤ 126) || (true && 128 ≤ b.toNat)) = true := by
+  simp only [printable] at h
+  simp only [Bool.or_eq_true] at h ⊢
+  exact Or.inl h
+
+/-- a run of printable octets only lengthens the current line -/
+theorem linesOkGo_plain (lim : Nat) : ∀ (xs : Bytes) (cur : Nat) (r : Bytes), Plain xs →
+    linesOkGo true lim cur (xs ++ r) = linesOkGo true lim (cur + xs.length) r
+  | [], cur, r, _ => by simp
+  | b :: xs, cur, r, h => by
+    have hb := h b (by simp)
+    have hne : b ≠ 13 := printable_not_cr b hb
+    have ih := linesOkGo_plain lim xs (cur + 1) r (fun x hx => h x (by simp [hx]))
+    rw [List.cons_append, linesOkGo.eq_3 _ _ _ _ _ (by intro r' e _; exact hne e)]
+    rw [ih, printable_ok b hb]
+    simp only [Bool.true_and, List.length_cons]
+    congr 1; omega
+
+theorem linesOkGo_crlf (lim cur : Nat) (r : Bytes) :
+    linesOkGo true lim cur (13 :: 10 :: r) = (decide (cur ≤ lim) && linesOkGo true lim 0 r) := by
+  rw [linesOkGo.eq_2]
+
+/-- what has been written keeps every finished line within `lim` (the line started with `c0` octets, the field name), and
+    `lineLen` is the length of the unfinished line -/
+def Tracks (lim c0 : Nat) (w : W) : Prop :=
+  ∀ rest, linesOkGo true lim c0 (w.bytes ++ rest) = linesOkGo true lim w.lineLen rest
+
+theorem tracks_chunk {lim c0 : Nat} {cs : List Bytes} {l sp : Nat} {n : Bool} (x : Bytes) (hx : Plain x)
+    (h : Tracks lim c0 ⟨cs, l, sp, n⟩) (sp' : Nat) (n' : Bool) : Tracks lim c0 ⟨x :: cs, l + x.length, sp', n'⟩ := by
+  intro rest
+  have e : (⟨x :: cs, l + x.length, sp', n'⟩ : W).bytes = (⟨cs, l, sp, n⟩ : W).bytes ++ x := by simp [W.bytes]
+  rw [e, List.append_assoc, h (x ++ rest)]
+  exact linesOkGo_plain lim x l rest hx
+
+theorem tracks_writeStr {lim c0 : Nat} {w : W} (h : Tracks lim c0 w) (s : Bytes) (hs : Plain s) :
+    Tracks lim c0 (w.writeStr s) ∧ (w.writeStr s).lineLen = w.lineLen + w.spaces + (trimEnd s).length ∧
+      (w.writeStr s).spaces = s.length - (trimEnd s).length := by
+  have hsa : Plain (trimEnd s) := fun b hb => hs b (trimEnd_sub s b hb)
+  obtain ⟨cs, l, sp, n⟩ := w
+  have h1 : Tracks lim c0 ⟨List.replicate sp 32 :: cs, l + sp, 0, n⟩ := by
+    have := tracks_chunk (List.replicate sp 32) (plain_spaces sp) h 0 n
+    simpa using this
+  unfold W.writeStr W.flushSpaces
+  simp only
+  split
+  · rename_i he
+    refine ⟨?_, by simp [List.isEmpty_iff.mp he], by simp⟩
+    intro rest
+    exact h1 rest
+  · refine ⟨?_, by simp [Nat.add_assoc], by simp⟩
+    exact tracks_chunk (trimEnd s) hsa h1 _ true
+
+theorem tracks_newLine {lim c0 : Nat} {w : W} (h : Tracks lim c0 w) (hl : w.lineLen ≤ lim) : Tracks lim c0 w.newLine := by
+  intro rest
+  have e : w.newLine.bytes = w.bytes ++ [13, 10] := by simp [W.newLine, W.bytes]
+  rw [e, List.append_assoc, h _]
+  simp only [List.cons_append, List.nil_append, linesOkGo_crlf, W.newLine, hl, decide_true, Bool.true_and]
+
+theorem trimEnd_nospace (a : Bytes) (h : ∀ b ∈ a, b ≠ 32) : trimEnd a = a := by
+  unfold trimEnd
+  have : a.reverse.dropWhile (· == 32) = a.reverse := by
+    cases hr : a.reverse with
+    | nil => rfl
+    | cons x xs =>
+      have hx : x ∈ a := List.mem_reverse.mp (by rw [hr]; simp)
+      have : (x == 32) = false := by simpa using h x hx
+      simp [List.dropWhile, this]
+  rw [this, List.reverse_reverse]
+
+/-- the writer right after an address: lines so far within 78, the current line within 76, no space pending -/
+structure AfterAddr (c0 : Nat) (w : W) : Prop where
+  tracks : Tracks 78 c0 w
+  len : w.lineLen ≤ 76
+  sp : w.spaces = 0
+
+/-- an address is: printable ASCII, no space, at most 75 octets -/
+def AddrOk (a : Bytes) : Prop := Plain a ∧ (∀ b ∈ a, b ≠ 32) ∧ a.length ≤ 75
+
+theorem next_address {c0 : Nat} {w : W} (h : AfterAddr c0 w) (a : Bytes) (ha : AddrOk a) :
+    AfterAddr c0 (mailboxEncode ((writeChar w 44).space) none a) := by
+  obtain ⟨hp, hns, hlen⟩ := ha
+  have hta := trimEnd_nospace a hns
+  -- the comma
+  obtain ⟨t1, l1, s1⟩ := tracks_writeStr h.tracks [44] (by intro b hb; simp at hb; subst hb; decide)
+  have ht44 : trimEnd [44] = [44] := by decide
+  rw [ht44] at l1 s1
+  simp only [h.sp, List.length_singleton, Nat.add_zero, Nat.sub_self] at l1 s1
+  -- the pending space
+  have e1 : ((writeChar w 44).space).lineLen = w.lineLen + 1 := by simp [writeChar, W.space, l1]
+  have e2 : ((writeChar w 44).space).spaces = 1 := by simp [writeChar, W.space, s1]
+  have t1' : Tracks 78 c0 ((writeChar w 44).space) := by intro rest; simpa [writeChar, W.space, W.bytes] using t1 rest
+  generalize (writeChar w 44).space = w1 at e1 e2 t1' ⊢
+  unfold mailboxEncode writeUnbreakable
+  simp only
+  split
+  · -- folded before the address
+    have tn := tracks_newLine t1' (by rw [e1]; have := h.len; omega)
+    obtain ⟨t2, l2, s2⟩ := tracks_writeStr tn a hp
+    rw [hta] at l2 s2
+    exact ⟨t2, by rw [l2]; simp [W.newLine, e2]; omega, by rw [s2]; simp⟩
+  · rename_i hc
+    simp only [Bool.and_eq_true, decide_eq_true_eq, not_and, Nat.not_lt] at hc
+    obtain ⟨t2, l2, s2⟩ := tracks_writeStr t1' a hp
+    rw [hta] at l2 s2
+    have := hc ⟨by rw [e2]; omega, by rw [e1]; omega⟩
+    simp only [maxLineLen] at this
+    exact ⟨t2, by rw [l2]; omega, by rw [s2]; simp⟩
+
+theorem rest_addresses {c0 : Nat} : ∀ (as : List Bytes) {w : W}, AfterAddr c0 w → (∀ a ∈ as, AddrOk a) →
+    AfterAddr c0 (mailboxesEncode w (as.map fun a => (none, a)) false)
+  | [], _, h, _ => h
+  | a :: as, w, h, ha => by
+    simp only [List.map_cons, mailboxesEncode, Bool.false_eq_true, if_false]
+    exact rest_addresses as (next_address h a (ha a (by simp))) (fun x hx => ha x (by simp [hx]))
+
+/-- **A list of bare addresses is folded within the limits.** For every list of addresses (printable ASCII without
+    spaces, each at most 75 octets, the first one fitting after the field name), every line of the header that
+    `Mailboxes::encode` writes is at most 78 octets long — whatever the number of addresses. (Before `fix:` 4d26e13 the
+    whole list was one line.) -/
+theorem address_list_lines (nameLen : Nat) (as : List Bytes) (ha : ∀ a ∈ as, AddrOk a)
+    (hfirst : ∀ a, as.head? = some a → nameLen + 2 + a.length ≤ 76) (hname : nameLen + 2 ≤ 76) :
+    linesOkGo true 78 (nameLen + 2) (headerValue nameLen (as.map fun a => (none, a)) ++ [13, 10]) = true := by
+  have fin : ∀ w : W, AfterAddr (nameLen + 2) w →
+      linesOkGo true 78 (nameLen + 2) (w.flushSpaces.bytes ++ [13, 10]) = true := by
+    intro w h
+    have e : w.flushSpaces.bytes = w.bytes := by simp [W.flushSpaces, W.bytes, h.sp]
+    rw [e, h.tracks, linesOkGo_crlf]
+    have := h.len
+    simp only [linesOkGo, Nat.zero_le, decide_true, Bool.and_true, decide_eq_true_eq]
+    omega
+  have w0 : Tracks 78 (nameLen + 2) ⟨[], nameLen + 2, 0, false⟩ := by intro rest; simp [W.bytes]
+  unfold headerValue
+  cases as with
+  | nil => exact fin _ ⟨w0, hname, rfl⟩
+  | cons a as =>
+    obtain ⟨hp, hns, hlen⟩ := ha a (by simp)
+    have hf := hfirst a rfl
+    simp only [List.map_cons, mailboxesEncode, if_true]
+    apply fin
+    apply rest_addresses as _ (fun x hx => ha x (by simp [hx]))
+    -- the first address: written right after the field name
+    unfold mailboxEncode writeUnbreakable
+    simp only [Nat.lt_irrefl, decide_false, Bool.false_and, Bool.false_eq_true, if_false]
+    obtain ⟨t2, l2, s2⟩ := tracks_writeStr w0 a hp
+    rw [trimEnd_nospace a hns] at l2 s2
+    exact ⟨t2, by rw [l2]; simp; omega, by rw [s2]; simp⟩
+
 
 end LV.MailboxEnc
